@@ -185,13 +185,38 @@ pub fn execute(w: &Work) -> String {
                 let par_lines: Vec<usize> = lines.par_iter().map(|l| l.0.len()).collect();
                 let par_pts: Vec<String> = geo::MultiPoint::new(ma.0.iter().flat_map(|p| p.exterior().points()).collect()).par_iter().map(|p| format!("{:?}", p)).collect();
                 let seq_polys: Vec<String> = ma.iter().map(|p| format!("{:?}", p.exterior().0.first())).collect();
-                let order_kept = par_polys == seq_polys && par_lines == lines.iter().map(|l| l.0.len()).collect::<Vec<_>>();
+                // point queries on one MonotonicPolygons object, in two different orders, against fresh objects (no query may
+                // leave a trace that changes a later answer)
+                let mono = MonotonicPolygons::from(ma.clone());
+                let qpts: Vec<Coord<f64>> = {
+                    use geo::CoordsIter;
+                    let mut v: Vec<Coord<f64>> = ma.coords_iter().chain(mb.coords_iter()).collect();
+                    let mids: Vec<Coord<f64>> = v.windows(2).map(|w| Coord { x: (w[0].x + w[1].x) / 2.0, y: (w[0].y + w[1].y) / 2.0 }).collect();
+                    v.extend(mids);
+                    v.truncate(60);
+                    v
+                };
+                let mut hist_same = true;
+                for pass in 0..2 {
+                    let order: Vec<usize> = if pass == 0 { (0..qpts.len()).collect() } else { (0..qpts.len()).rev().collect() };
+                    for i in order {
+                        use geo::Intersects;
+                        hist_same &= mono.intersects(&qpts[i]) == MonotonicPolygons::from(ma.clone()).intersects(&qpts[i]);
+                    }
+                }
+                // constraint lines that cross or overlap (the two operands together, as a Vec of polygons)
+                let crossing: Vec<Polygon<f64>> = ma.0.iter().chain(mb.0.iter()).cloned().collect();
+                let tri_crossing = {
+                    use geo::triangulate_delaunay::{DelaunayTriangulationConfig, TriangulateDelaunay};
+                    format!("{:?}", TriangulateDelaunay::constrained_outer_triangulation(&crossing, DelaunayTriangulationConfig::default()).map_err(|e| e.to_string()))
+                };
+                let order_kept = hist_same && par_polys == seq_polys && par_lines == lines.iter().map(|l| l.0.len()).collect::<Vec<_>>();
                 format!(
-                    "{:?}|{:?}|{:?}|{:?}|{:?}|{:?}|{:?}|{:?}|{:?}|{:?}|{}",
-                    ma.clip(&lines, false), ma.clip(&lines, true), ma.boolean_op(&mb, OpType::Xor),
+                    "{}|{:?}|{:?}|{:?}|{:?}|{:?}|{:?}|{:?}|{:?}|{:?}|{:?}|{}",
+                    tri_crossing, ma.clip(&lines, false), ma.clip(&lines, true), ma.boolean_op(&mb, OpType::Xor),
                     MonotonicPolygons::from(ma.clone()).subdivisions().iter().map(|m| m.clone().into_polygon()).collect::<Vec<_>>(),
                     ma.validation_errors(), Euclidean.densify(&ma, 1.5), ma.simplify_vw(0.5), mb.simplify_vw_preserve(0.5),
-                    par_pts, par_polys, if order_kept { "par-order-kept" } else { "PAR-ORDER-CHANGED" }
+                    par_pts, par_polys, if order_kept { "par-order-kept" } else if !hist_same { "MONOTONE-QUERY-HISTORY-DEPENDENT" } else { "PAR-ORDER-CHANGED" }
                 )
             };
             format!("{:?}|{:?}|{:?}|{}|{}", ga.relate(&gb), ga.convex_hull(), gb.convex_hull(), simp, more)
@@ -330,7 +355,7 @@ impl Property for C20 {
             }
         };
         if name == "Misc" {
-            obs.expect(first.ends_with("par-order-kept"), "Misc|rayon-iterator-reorders-members", || format!("{first}; work {:?}", Self::show(c)));
+            obs.expect(first.ends_with("par-order-kept"), "Misc|rayon-iterator-reorders-members-or-query-history", || format!("{first}; work {:?}", Self::show(c)));
         }
         if name == "Outliers" {
             obs.expect(first.ends_with("|same-as-fresh"), "Outliers|history-dependent", || format!("reused PreparedDetector vs fresh ones: {first}; work {:?}", Self::show(c)));
